@@ -9,23 +9,27 @@
 (* Whether a copy still leans on its source depends on the HISTORY, not on the payloads: the      *)
 (* ghost variable prov records how each object came to be and whether the object it was copied   *)
 (* from is still there, so that "a copy whose source is gone is mutated" is a transition of its   *)
-(* own in the graph and every such transition is replayed.                                        *)
+(* own in the graph and every such transition is replayed.  In the same way prov.rem records that *)
+(* a cell has been removed from the object (or from the one it was copied or moved from): a      *)
+(* matrix that has shrunk keeps counters and maps a freshly built one does not have, and every    *)
+(* copy / move / mutation of such an object is a transition of its own.                           *)
 EXTENDS Persistence
 
 CONSTANTS Slots, P, MaxCells, MaxVerts, WithSwap
 VARIABLES obj,    \* slot -> [live |-> BOOLEAN, f |-> cell sequence]
-          prov,   \* slot -> [kind |-> "none" | "new" | "copy" | "orphan" | "moved", src |-> slot or 0]
+          prov,   \* slot -> [kind |-> "none" | "new" | "copy" | "orphan" | "moved", src |-> slot or 0,
+                  \*          rem |-> a cell was removed from this object, or from the one it was copied / moved from]
           act
 
 Dead == [live |-> FALSE, f |-> <<>>]
 Live(f) == [live |-> TRUE, f |-> f]
-NoProv == [kind |-> "none", src |-> 0]
-New == [kind |-> "new", src |-> 0]
+NoProv == [kind |-> "none", src |-> 0, rem |-> FALSE]
+New == [kind |-> "new", src |-> 0, rem |-> FALSE]
 
 Init == obj = [i \in Slots |-> Dead] /\ prov = [i \in Slots |-> NoProv] /\ act = [op |-> "init"]
 
 (* every copy taken from slot j loses its source when j is destroyed, overwritten, moved from or swapped *)
-Orphaned(pr, j) == [i \in Slots |-> IF pr[i].src = j THEN [kind |-> "orphan", src |-> 0] ELSE pr[i]]
+Orphaned(pr, j) == [i \in Slots |-> IF pr[i].src = j THEN [kind |-> "orphan", src |-> 0, rem |-> pr[i].rem] ELSE pr[i]]
 
 BdJ(c) == {[x |-> x - 1, c |-> c[x]] : x \in DOMAIN c}
 FJ(G)  == [k \in DOMAIN G |-> [d |-> G[k].dim, bd_set |-> BdJ(G[k].bd)]]
@@ -55,7 +59,8 @@ InsertEdge(i, a, b, c) ==
 RemoveLast(i) ==
   /\ obj[i].live /\ Len(obj[i].f) > 0
   /\ obj' = [obj EXCEPT ![i] = Live(SubSeq(obj[i].f, 1, Len(obj[i].f) - 1))]
-  /\ act' = [op |-> "mutate", i |-> i, m |-> [op |-> "remove_last"], ret_ok |-> TRUE] /\ UNCHANGED prov
+  /\ act' = [op |-> "mutate", i |-> i, m |-> [op |-> "remove_last"], ret_ok |-> TRUE]
+  /\ prov' = [prov EXCEPT ![i].rem = TRUE]   \* (removals leave counters and maps behind that a fresh matrix does not have)
 Tau(k, x) == IF x = k THEN k + 1 ELSE IF x = k + 1 THEN k ELSE x
 RenameChain(c, f(_)) == [y \in {f(x) : x \in DOMAIN c} |-> c[CHOOSE x \in DOMAIN c : f(x) = y]]
 SwapF(G, k) == [n \in DOMAIN G |-> LET src == G[Tau(k, n)] IN
@@ -73,28 +78,29 @@ VineSwap(i, k) ==
 CopyConstruct(i, j) ==
   /\ ~obj[i].live /\ obj[j].live
   /\ obj' = [obj EXCEPT ![i] = obj[j]]
-  /\ prov' = [prov EXCEPT ![i] = [kind |-> "copy", src |-> j]]
+  /\ prov' = [prov EXCEPT ![i] = [kind |-> "copy", src |-> j, rem |-> prov[j].rem]]
   /\ act' = [op |-> "copy_construct", i |-> i, j |-> j]
 CopyAssign(i, j) ==            \* i = j allowed: self-assignment leaves everything as it is
   /\ obj[i].live /\ obj[j].live
   /\ obj' = [obj EXCEPT ![i] = obj[j]]
-  /\ prov' = IF i = j THEN prov ELSE [Orphaned(prov, i) EXCEPT ![i] = [kind |-> "copy", src |-> j]]
+  /\ prov' = IF i = j THEN prov ELSE [Orphaned(prov, i) EXCEPT ![i] = [kind |-> "copy", src |-> j, rem |-> prov[j].rem]]
   /\ act' = [op |-> "copy_assign", i |-> i, j |-> j]
 (* Matrix.h: "After the move, the given matrix will be empty." *)
 MoveConstruct(i, j) ==
   /\ ~obj[i].live /\ obj[j].live
   /\ obj' = [obj EXCEPT ![i] = obj[j], ![j] = Live(<<>>)]
-  /\ prov' = [Orphaned(prov, j) EXCEPT ![i] = [kind |-> "moved", src |-> 0], ![j] = New]
+  /\ prov' = [Orphaned(prov, j) EXCEPT ![i] = [kind |-> "moved", src |-> 0, rem |-> prov[j].rem], ![j] = New]
   /\ act' = [op |-> "move_construct", i |-> i, j |-> j]
 MoveAssign(i, j) ==
   /\ obj[i].live /\ obj[j].live /\ i # j
   /\ obj' = [obj EXCEPT ![i] = obj[j], ![j] = Live(<<>>)]
-  /\ prov' = [Orphaned(Orphaned(prov, i), j) EXCEPT ![i] = [kind |-> "moved", src |-> 0], ![j] = New]
+  /\ prov' = [Orphaned(Orphaned(prov, i), j) EXCEPT ![i] = [kind |-> "moved", src |-> 0, rem |-> prov[j].rem], ![j] = New]
   /\ act' = [op |-> "move_assign", i |-> i, j |-> j]
 Swap(i, j) ==
   /\ obj[i].live /\ obj[j].live /\ i < j
   /\ obj' = [obj EXCEPT ![i] = obj[j], ![j] = obj[i]]
-  /\ prov' = [Orphaned(Orphaned(prov, i), j) EXCEPT ![i] = [kind |-> "moved", src |-> 0], ![j] = [kind |-> "moved", src |-> 0]]
+  /\ prov' = [Orphaned(Orphaned(prov, i), j) EXCEPT ![i] = [kind |-> "moved", src |-> 0, rem |-> prov[j].rem],
+                                                   ![j] = [kind |-> "moved", src |-> 0, rem |-> prov[i].rem]]
   /\ act' = [op |-> "swap", i |-> i, j |-> j]
 
 BarsJ(G) == {[dim |-> b.dim, birth |-> b.birth - 1, death |-> b.death - 1] : b \in Bars(G, P)}
@@ -102,7 +108,7 @@ SlotObs(o) == IF o.live THEN [live |-> TRUE, n |-> Len(o.f), dims |-> [k \in DOM
                               bars_set |-> BarsJ(o.f), checks_failed |-> <<>>]
               ELSE [live |-> FALSE]
 ObjJ(o) == [i \in Slots |-> SlotObs(o[i])]
-IdObj(o, pr) == [i \in Slots |-> [live |-> o[i].live, f |-> FJ(o[i].f), kind |-> pr[i].kind, src |-> pr[i].src]]
+IdObj(o, pr) == [i \in Slots |-> [live |-> o[i].live, f |-> FJ(o[i].f), kind |-> pr[i].kind, src |-> pr[i].src, rem |-> pr[i].rem]]
 
 (* in-model: the payloads stay well-formed complexes, provenance is consistent with liveness *)
 InvWellFormed == \A i \in Slots : obj[i].live => WellFormed(obj[i].f, P)
